@@ -23,6 +23,8 @@
 (*              most one per paragraph                                     *)
 (*   Pipe       a line holding "|" also holds a plain word (so that it     *)
 (*              cannot be the delimiter row of a table)                    *)
+(*   Underline  a line does not consist of "=" lexemes only (that would be *)
+(*              a setext underline); "= 3 + 4" is inert                    *)
 (* Expected output: one <p> holding exactly the typed text, HTML-escaped.  *)
 (***************************************************************************)
 EXTENDS Naturals, Sequences, FiniteSets, TLC, Json
@@ -41,12 +43,12 @@ Vocab == <<
     Wd("comma,"), Wd("what?"), Wd("wow!"), Wd("(paren)"), Wd("1.5"), Wd("v2.0.1"), Wd("100%"), Wd("user@example.com"), Wd("a/b"),
     Wd("C:\\dir"), Wd("x=y"), Wd("a+b"), Wd("key=value"), Wd("AT&T"), Wd("R&D"), Wd("&copy"), Wd("a&b"), Wd("x^2"), Wd("$5"), Wd("$x$"),
     Wd("#hashtag"), Wd("C#"), Wd("a#b"), Wd("it's"), Wd("{braces}"), Wd("semi-colon"), Wd("well-known"), Wd("a--b"), Wd("x>y"), Wd("->"),
-    Sb("-"), Sb("+"), Sb("#"), Sb("##"), Sb(">"), Sb(">>"), Sb("="), Sb("=="), Sb("--"), Sb("1."), Sb("2."), Sb("1)"), Sb("10."), Sb("007."),
+    Sb("-"), Sb("+"), Sb("#"), Sb("##"), Sb(">"), Sb(">>"), In("="), In("=="), Sb("--"), Sb("1."), Sb("2."), Sb("1)"), Sb("10."), Sb("007."),
     Sb("<"), Sb("<3"), Sb("<="), Sb("<-"), Sb("<>"), Sb("(1)"), Sb("(a)"),
     In("."), In(")"),
     In("~"), In("^"), In("$"), In("%"), In("@"), In("&"), In("&&"), In(":"), In(";"), In("!"), In("?"), In(","), In("("), In("/"),
     In("["), In("]"), In("[x"), In("x]"), In("[1]"), In("a[1]"), In("]["), In("(x"), In("x)"), In("!["), In("!x"), In("[]"), In("()"),
-    Sb("=>"), Sb(">="), Sb("=)"), In(":)"), Sb("3)"), In("2.5)"),
+    In("=>"), Sb(">="), In("=)"), In(":)"), Sb("3)"), In("2.5)"),
     L("|", TRUE, FALSE, FALSE, FALSE, TRUE, FALSE), L("a|b", FALSE, FALSE, FALSE, FALSE, TRUE, FALSE), L("||", TRUE, FALSE, FALSE, FALSE, TRUE, FALSE),
     L("`", FALSE, FALSE, TRUE, FALSE, FALSE, FALSE), L("``", FALSE, FALSE, TRUE, FALSE, FALSE, FALSE), L("a`b", FALSE, FALSE, TRUE, FALSE, FALSE, FALSE),
     L("*", TRUE, FALSE, FALSE, FALSE, FALSE, FALSE), L("2*3", FALSE, FALSE, FALSE, TRUE, FALSE, FALSE), L("a*b", FALSE, FALSE, FALSE, TRUE, FALSE, FALSE),
@@ -60,7 +62,10 @@ Lex == 1..N
 VARIABLES lines, cur, ticks, stars, phase
 vars == <<lines, cur, ticks, stars, phase>>
 
+(* lexemes made of "=" only: a line made of nothing else would be a setext underline; followed by other text it is inert *)
+UnderlineLike == {"=", "=="}
 LineOk(ln) == /\ ln # << >>
+              /\ (\E i \in DOMAIN ln : Vocab[ln[i]].t \notin UnderlineLike)
               /\ ~Vocab[ln[Len(ln)]].eb
               /\ ((\E i \in DOMAIN ln : Vocab[ln[i]].pp) => (\E i \in DOMAIN ln : Vocab[ln[i]].wd))
 
